@@ -16,7 +16,6 @@ from harness.util import import_df, attempt  # noqa: E402
 df = import_df()
 
 TAG_FILTER = "C20-explicit-filter-drops-validity"
-TAG_SQUEEZE = "C20-lightness-single-cell-axis"
 SI = {k: float(f"1e{3 * k}") for k in range(-8, 9)}
 PREFIX = {8: "Y", 7: "Z", 6: "E", 5: "P", 4: "T", 3: "G", 2: "M", 1: "k", 0: "", -1: "m", -2: "u",
           -3: "n", -4: "p", -5: "f", -6: "a", -7: "z", -8: "y"}
@@ -529,13 +528,10 @@ def run_case(c):
                                                                   c.get("lightness_field"))))
     if not accepted and wellformed and fd["nvdim"] == 1 and kind in ("scalar", "lightness", "call"):
         rec["oracle"].append("valid-field-refused")
-        if kind == "lightness" and min(fd["n"]) == 1:
-            rec["tags"].append(TAG_SQUEEZE)
-    if not accepted and wellformed and kind == "lightness" and fd["nvdim"] in (2, 3) and min(fd["n"]) == 1:
+    if not accepted and wellformed and kind == "lightness" and fd["nvdim"] in (2, 3):
         rev_ = {v: k for k, v in f.vdim_mapping.items()}
         if all(rev_.get(d) in (f.vdims or []) for d in f.mesh.region.dims):
             rec["oracle"].append("valid-field-refused")
-            rec["tags"].append(TAG_SQUEEZE)
 
     # effective multiplier (for the oracle)
     m_eff = None
